@@ -42,6 +42,9 @@ type Case struct {
 	Exts          map[string]any
 	SigAlgo       int
 	ClientVersion string // "" = 8.1
+	// KeyOptions: authorized_keys options in front of the registered key line ("" = none); they restrict what
+	// the key may do in an authorized_keys file and are no input to the signing request
+	KeyOptions string
 }
 
 func genWeird(t *rapid.T, label string, allowEmpty bool) string {
@@ -49,7 +52,9 @@ func genWeird(t *rapid.T, label string, allowEmpty bool) string {
 	case 0:
 		l := []string{`a"b`, `back\slash`, "<script>", "x y", "é", "日本", "user name", "{}", `","isHWKey":true,"x":"`, "null", "a,b", "tab\there",
 			// texts that look like JSON escapes themselves (a literal backslash followed by an escape letter)
-			`\u003c`, `x\u0026y`, `\u003e\u003c`, `\n`, `\"`, `\\`, `\u00e9`, `\u2028`, "&amp;", "%3C", "\u2028\u2029", "a&b<c>d"}
+			`\u003c`, `x\u0026y`, `\u003e\u003c`, `\n`, `\"`, `\\`, `\u00e9`, `\u2028`, "&amp;", "%3C", "\u2028\u2029", "a&b<c>d",
+			// forms a normaliser would rewrite
+			"Host.Example.COM", "host.example.com.", "Alice", "alice@example.com", "xn--bcher-kva.example", "bücher.example", "alice:touch"}
 		if allowEmpty {
 			l = append(l, "")
 		}
@@ -86,6 +91,7 @@ func gen(t *rapid.T) Case {
 		CAAlgo:  rapid.SampledFrom([]int{0, 0, 1, 2, 3, 4, 5, 7, 100}).Draw(t, "caAlgo"),
 		UserKey: rapid.SampledFrom([]string{"p256b", "ed25519b", "rsa2048b", "p384a"}).Draw(t, "userKey"),
 		Via:     rapid.SampledFrom([]string{"direct", "direct", "env"}).Draw(t, "via"),
+		KeyOptions: rapid.SampledFrom([]string{"", "", "", "restrict", "no-pty", "no-agent-forwarding,no-X11-forwarding", "NO-PTY,no-user-rc,no-port-forwarding", `from="10.0.0.0/8",command="/bin/true"`, `restrict,pty`, `environment="A=b c"`, "cert-authority"}).Draw(t, "keyOptions"),
 		// the client-declared OpenSSH version (a claim like the others: around the releases that introduced ECDSA 5.7 and Ed25519 6.5)
 		ClientVersion: rapid.SampledFrom([]string{"", "", "8.1", "5.6", "5.7", "6.4", "6.5", "0.0", "1.0", "4.3", "9.9", "65535.65535", "0.1"}).Draw(t, "clientVersion"),
 	}
@@ -155,7 +161,11 @@ func exec(c Case) (vh.Outcome, error) {
 		return out, nil
 	}
 	defer os.RemoveAll(dir)
-	if err := os.WriteFile(filepath.Join(dir, c.LogName+".pub"), vh.AuthorizedLine(c.UserKey, "registered"), 0o644); err != nil {
+	line := vh.AuthorizedLine(c.UserKey, "registered")
+	if c.KeyOptions != "" {
+		line = append([]byte(c.KeyOptions+" "), line...)
+	}
+	if err := os.WriteFile(filepath.Join(dir, c.LogName+".pub"), line, 0o644); err != nil {
 		return out, nil // the login name is not usable as a file name on this system: outside the domain
 	}
 	_ = p.Ring().Add(agent.AddedKey{PrivateKey: vh.Key(c.UserKey), Comment: "long-term key"})
@@ -271,7 +281,7 @@ func exec(c Case) (vh.Outcome, error) {
 	return out, nil
 }
 
-const rule = "login name, client-declared user and host, transaction id with JSON metacharacters (quotes, backslash, an injection attempt, U+2028), non-ASCII, spaces; IPv4/IPv6 source; requested CA key algorithm 0..5, 7, 100; further client claims in the message (declared OpenSSH version incl. those older than ECDSA / Ed25519 support, touch-to-SSH, touchless-sudo with firefighter / hosts / time, signature algorithm, extension map with attribute look-alikes) that must not reach the request; handler configuration written as JSON and loaded by config.NewGensignConfig: validity 1 s..10 y (edges 1, 3599, 3600, 2^31, 315360000) or omitted (default 12 h), key_identifiers keyed by algorithm name in random case, by default/unknown, or by number, with or without the requested algorithm; parameters built directly or through NewReqParam; honest agent, recording CA; each Case issues the request twice. Oracle on the request seen by the CA: principals = [login name]; validity = configured; extensions = the five documented names with empty values; key slot = the one configured for the requested algorithm (reference resolution of names / numbers), none => HandlerConfErr and no CA call; public key parses, is not the registered key, differs between the two requests and equals the public half of the private key the agent received; KeyId decoded by the reference decoder and by keyid.Unmarshal: single principal = login name, transaction id / ip / declared user / host verbatim, version 1, all flags false, usage 0, never-touch. Non-trivial: declared user != login name, a metacharacter or non-ASCII value, or a non-default algorithm."
+const rule = "login name, client-declared user and host, transaction id with JSON metacharacters (quotes, backslash, an injection attempt, U+2028), non-ASCII, spaces; IPv4/IPv6 source; requested CA key algorithm 0..5, 7, 100; further client claims in the message (declared OpenSSH version incl. those older than ECDSA / Ed25519 support, touch-to-SSH, touchless-sudo with firefighter / hosts / time, signature algorithm, extension map with attribute look-alikes) that must not reach the request; the registered key line with or without authorized_keys options (restrict, no-pty, from=, command=, ...); handler configuration written as JSON and loaded by config.NewGensignConfig: validity 1 s..10 y (edges 1, 3599, 3600, 2^31, 315360000) or omitted (default 12 h), key_identifiers keyed by algorithm name in random case, by default/unknown, or by number, with or without the requested algorithm; parameters built directly or through NewReqParam; honest agent, recording CA; each Case issues the request twice. Oracle on the request seen by the CA: principals = [login name]; validity = configured; extensions = the five documented names with empty values; key slot = the one configured for the requested algorithm (reference resolution of names / numbers), none => HandlerConfErr and no CA call; public key parses, is not the registered key, differs between the two requests and equals the public half of the private key the agent received; KeyId decoded by the reference decoder and by keyid.Unmarshal: single principal = login name, transaction id / ip / declared user / host verbatim, version 1, all flags false, usage 0, never-touch. Non-trivial: declared user != login name, a metacharacter or non-ASCII value, or a non-default algorithm."
 
 func TestC02Request(t *testing.T) {
 	vh.Run(t, vh.Spec[Case]{Property: "C02", Name: "TestC02Request", Rule: rule, Gen: gen, Exec: exec})
